@@ -111,6 +111,8 @@ fn corpus() -> Vec<Edge> {
         edge("untagged-enum-with-empty-paren-variant", "#[typeshare]\npub enum Phase { Start, Middle(), End }\n"),
         edge("tagged-enum-with-empty-brace-and-paren-variants", "#[typeshare]\n#[serde(tag = \"t\", content = \"c\")]\npub enum Mixed { A {}, B(), C, D { x: u8 } }\n"),
         edge("unit-struct-three-spellings", "#[typeshare]\npub struct UnitA;\n#[typeshare]\npub struct UnitB {}\n#[typeshare]\npub struct UnitC();\n"),
+        edge("doc-comment-without-text", "///\n#[typeshare]\npub struct A {\n    ///\n    ///\n    pub a: u8,\n    #[doc = \"\"]\n    pub b: u8,\n}\n/** */\n#[typeshare]\npub enum E {\n    ///\n    X,\n    /**\n     */\n    Y,\n}\n#[doc = \"\"]\n#[doc = \"   \"]\n#[typeshare]\npub type T = Vec<u8>;\n"),
+        edge("doc-comment-blank-lines-around-text", "///\n///\n/// text after two blank lines\n///\n#[typeshare]\n#[serde(tag = \"t\", content = \"c\")]\npub enum E {\n    ///\n    /// variant\n    A(u8),\n    B {\n        /// field\n        ///\n        x: u8,\n    },\n}\n"),
         edge("non-ascii-before-acronym", "#[typeshare]\npub struct Benutzer { pub größe_id: u32, pub übung_url: String, pub id_größe: u8, pub é_api_é: u8 }\n#[typeshare]\npub struct GrößeId { pub a: u8 }\n#[typeshare]\n#[serde(tag = \"t\", content = \"c\")]\npub enum ÜbungUrl { ÄpiId(GrößeId), Über { straße_id: u8 } }\n"),
         edge("non-ascii-type-name", "#[typeshare]\npub struct Étoile { pub a: u8 }\n#[typeshare]\n#[serde(tag = \"t\", content = \"c\")]\npub enum Éé { A(Étoile) }\n"),
         edge("const-every-backend", "#[typeshare]\npub const LIMIT: u32 = 7;\n"),
